@@ -2163,6 +2163,8 @@ impl UnionDecoder {
             .iter_mut()
             .map(|d| d.flush(None))
             .collect::<Result<Vec<_>, _>>()?;
+        // The children start empty again for the next batch, so must the dense offsets
+        self.branches.counts.iter_mut().for_each(|c| *c = 0);
         let arr = UnionArray::try_new(
             self.fields.clone(),
             flush_values(&mut self.branches.type_ids)
